@@ -173,8 +173,11 @@ class SymLen(object):
 
 class HObj(object):
     """Heap object.  kind: obj | list | dict | set | exc.
-    ``open``: unknown fields read as fresh input Tops (materialised on first read)."""
-    __slots__ = ("cls", "fields", "kind", "open", "items", "count", "base", "label", "field_domains")
+    ``open``: unknown fields read as fresh input Tops (materialised on first read).
+    Heap objects are shared between forked states (copy-on-write): mutate only the
+    object returned by ``State.wobj``."""
+    __slots__ = ("cls", "fields", "kind", "open", "items", "count", "base", "label", "field_domains",
+                 "owner", "_kc")
 
     def __init__(self, cls=None, fields=None, kind="obj", open=False, items=None, label=None,
                  field_domains=None):
@@ -187,6 +190,8 @@ class HObj(object):
         self.base = None            # abstract list: symbolic base length name, or None (exact)
         self.label = label
         self.field_domains = field_domains or {}
+        self.owner = None
+        self._kc = None             # cached (key id, out refs) - reset by State.wobj
 
     def copy(self):
         o = HObj(self.cls, self.fields, self.kind, self.open,
@@ -294,43 +299,82 @@ def refs_in(v, out):
         out.append(v.origin[1])
 
 
+_INTERN = {}
+
+
+def _intern(k):
+    v = _INTERN.get(k)
+    if v is None:
+        v = len(_INTERN) + 1
+        _INTERN[k] = v
+    return v
+
+
+DEBUG_COW = bool(__import__("os").environ.get("VERIF_DEBUG_COW"))
+
+
 class State(object):
-    """Abstract machine state: call stack of local frames, heap, ghost (monitor)
-    variables, the decision path that led here and flags."""
+    """Abstract machine state: call stack of local frames, heap (copy-on-write),
+    ghost (monitor) variables, the decision path that led here and flags."""
 
     _oid = itertools.count(1)
+    _epoch = itertools.count(1)
 
     def __init__(self):
         self.frames = []        # list of dict
-        self.heap = {}          # oid -> HObj
+        self.heap = {}          # oid -> HObj (shared between forks; see wobj)
         self.ghost = {}         # name -> hashable value
         self.path = ()          # decisions (witness)
         self.imprecise = ()     # expressions whose precision loss was branched on
         self.trace = ()         # bounded event trace (witness only)
         self.pinned = ()        # oids kept alive across gc (harness roots)
+        self.epoch = next(State._epoch)
+        self.base_oid = 0       # oids <= base_oid: allocated by the harness before exploring
+
+    def freeze_base(self):
+        self.base_oid = max(self.heap) if self.heap else 0
 
     def fork(self):
         s = State()
         s.frames = [dict(f) for f in self.frames]
-        s.heap = {k: o.copy() for k, o in self.heap.items()}
+        s.heap = dict(self.heap)
         s.ghost = dict(self.ghost)
         s.path = self.path
         s.imprecise = self.imprecise
         s.trace = self.trace
         s.pinned = self.pinned
+        s.base_oid = self.base_oid
+        # neither side owns the shared objects any more
+        self.epoch = next(State._epoch)
         return s
 
     # -- heap --
     def alloc(self, obj):
         oid = next(State._oid)
+        obj.owner = self.epoch
         self.heap[oid] = obj
         return Ref(oid)
 
     def obj(self, ref):
+        """Read access (do NOT mutate the result; use wobj)."""
         try:
             return self.heap[ref.oid]
         except KeyError:
             raise AnalysisError("dangling reference %r" % ref)
+
+    def wobj(self, ref):
+        """Write access: a private copy of the object if it is shared."""
+        oid = ref.oid if isinstance(ref, Ref) else ref
+        try:
+            o = self.heap[oid]
+        except KeyError:
+            raise AnalysisError("dangling reference %r" % ref)
+        if o.owner != self.epoch:
+            o = o.copy()
+            o.owner = self.epoch
+            self.heap[oid] = o
+        o._kc = None
+        return o
 
     def note(self, text):
         self.path = self.path + (text,)
@@ -343,8 +387,33 @@ class State(object):
         if what not in self.imprecise:
             self.imprecise = self.imprecise + (what,)
 
-    # -- canonical key (for loop fixpoints) --
+    # -- canonical key (for loop fixpoints / merging) --
+    @staticmethod
+    def _obj_key(o, ren):
+        return (o.clsname(), o.kind, o.open,
+                tuple(sorted(((repr(k), vkey(v, ren)) for k, v in o.fields.items()))),
+                vkey(o.items, ren) if o.items is not None else None,
+                vkey(o.count), o.base)
+
+    def _okc(self, o):
+        """cached (interned key with raw oids, outgoing refs, refers to fresh objects?)"""
+        kc = o._kc
+        if kc is None or DEBUG_COW:
+            out = []
+            for k in o.fields:
+                refs_in(o.fields[k], out)
+            if o.items is not None:
+                refs_in(o.items, out)
+            fresh = any(r > self.base_oid for r in out)
+            new = (_intern(self._obj_key(o, None)), tuple(out), fresh)
+            if DEBUG_COW and kc is not None and kc != new and o.owner != self.epoch:
+                raise AnalysisError("copy-on-write violated: shared %s object mutated in place" % o.clsname())
+            o._kc = kc = new
+        return kc
+
     def gc(self):
+        """Drop unreachable objects allocated during the exploration; returns the
+        reachable fresh oids in canonical (discovery) order."""
         roots = []
         for f in self.frames:
             for k in sorted(f):
@@ -352,35 +421,43 @@ class State(object):
         for k in sorted(self.ghost):
             refs_in(self.ghost[k], roots)
         roots.extend(self.pinned)
-        seen = []
-        seen_set = set()
-        stack = list(reversed(roots))
+        base = self.base_oid
+        heap = self.heap
+        for oid in heap:
+            if oid <= base:
+                kc = self._okc(heap[oid])
+                if kc[2]:
+                    roots.extend(r for r in kc[1] if r > base)
+        order = []
+        seen = set()
+        stack = [r for r in reversed(roots) if r > base]
         while stack:
             oid = stack.pop()
-            if oid in seen_set or oid not in self.heap:
+            if oid in seen or oid not in heap:
                 continue
-            seen_set.add(oid)
-            seen.append(oid)
-            o = self.heap[oid]
-            sub = []
-            for k in sorted(o.fields, key=repr):
-                refs_in(o.fields[k], sub)
-            if o.items is not None:
-                refs_in(o.items, sub)
-            stack.extend(reversed(sub))
-        self.heap = {oid: self.heap[oid] for oid in seen}
-        return seen
+            seen.add(oid)
+            order.append(oid)
+            kc = self._okc(heap[oid])
+            stack.extend(r for r in reversed(kc[1]) if r > base)
+        if len(seen) + sum(1 for o in heap if o <= base) != len(heap):
+            self.heap = {oid: o for oid, o in heap.items() if oid <= base or oid in seen}
+        return order
 
     def key(self):
         order = self.gc()
-        ren = {oid: i for i, oid in enumerate(order)}
+        base = self.base_oid
+        ren = {oid: -(i + 1) for i, oid in enumerate(order)}
         fr = tuple(tuple((k, vkey(f[k], ren)) for k in sorted(f)) for f in self.frames)
         hp = []
+        heap = self.heap
+        for oid in sorted(o for o in heap if o <= base):
+            o = heap[oid]
+            kc = self._okc(o)
+            if kc[2]:
+                hp.append((oid, _intern(self._obj_key(o, ren))))
+            else:
+                hp.append((oid, kc[0]))
         for oid in order:
-            o = self.heap[oid]
-            hp.append((ren[oid], o.clsname(), o.kind, o.open,
-                       tuple((repr(k), vkey(o.fields[k], ren)) for k in sorted(o.fields, key=repr)),
-                       vkey(o.items, ren) if o.items is not None else None,
-                       vkey(o.count), o.base))
+            hp.append((ren[oid], _intern(self._obj_key(heap[oid], ren))))
         gh = tuple((k, vkey(self.ghost[k], ren)) for k in sorted(self.ghost))
         return (fr, tuple(hp), gh, bool(self.imprecise))
